@@ -620,15 +620,22 @@ func dnfEquivDomain(a, b dnf, domains map[string][]string) bool {
 // Character classes of the lexer and word classes of the text formatter are vocabulary of
 // the rules themselves (C07, C18.g compare guards by predicate name); they stay opaque.
 func isOpaquePred(g *ssa.Function) bool {
-	if g.Pkg != nil && strings.HasSuffix(g.Pkg.Pkg.Path(), "/lexer") {
-		return true
-	}
+	inLexer := g.Pkg != nil && strings.HasSuffix(g.Pkg.Pkg.Path(), "/lexer")
+	isFont := false
 	if recv := g.Signature.Recv(); recv != nil && strings.HasSuffix(recv.Type().String(), "parser.FontConfig") {
-		// word classes (isLineBreak, isParagraphBreak, isAutoLineBreak): predicates over a string
-		for _, p := range g.Params[1:] {
-			if types.Identical(p.Type(), types.Typ[types.String]) {
-				return true
-			}
+		isFont = true
+	}
+	if !inLexer && !isFont {
+		return false
+	}
+	// classes of characters / words: predicates over a rune or a string argument
+	params := g.Params
+	if g.Signature.Recv() != nil && len(params) > 0 {
+		params = params[1:]
+	}
+	for _, p := range params {
+		if b, ok := p.Type().Underlying().(*types.Basic); ok && (b.Kind() == types.Int32 || b.Kind() == types.String || b.Kind() == types.UntypedRune) {
+			return true
 		}
 	}
 	return false
@@ -1071,6 +1078,9 @@ func (p *PathConds) valSummaryOf(g *ssa.Function) []valAlt {
 	t := p.t
 	if !t.w.InRepo(g) || len(g.Blocks) < 2 || len(g.Blocks) > 16 || isOpaquePred(g) {
 		return nil
+	}
+	if g.Pkg != nil && strings.HasSuffix(g.Pkg.Pkg.Path(), "/lexer") {
+		return nil // peekChar and friends are vocabulary of the lexer rules
 	}
 	res := g.Signature.Results()
 	if res.Len() != 1 || t.purity(g) < purReadOnly {
